@@ -41,7 +41,8 @@ def has_nonident_wordchar(s: str) -> bool:
 
 def norm(s: str) -> str:
     """Conservative over-approximation of every normalisation the generator applies: names equal under it *may* merge."""
-    s = unicodedata.normalize("NFKC", s).lower()
+    s = unicodedata.normalize("NFKC", s)
+    s = unicodedata.normalize("NFKC", s.upper().casefold())   # ß/SS, İ/i̇, ﬁ/FI ... : upper-casing is one of the generator's steps
     return "".join(ch for ch in s if ch.isalnum())
 
 
